@@ -220,8 +220,13 @@ def oracle(case):
             if len(p.links) != 1 or p.links[0].line is not L:
                 F.append("path-does-not-reference-stored-link: %r" % (list(order),))
             else:
-                sym = norm(stored) == norm(compl_text(stored))
-                forward = norm(trav)[:4] == norm(stored)[:4]
+                # self-complementary oriented pair (hairpin-like self-link): with an unspecified path overlap the
+                # direction of traversal cannot be told apart, either flag is right
+                sym = norm(stored) == norm(compl_text(stored)) or \
+                    (norm(stored)[:4] == norm(compl_text(stored))[:4] and ovl == "*")
+                # with a self-complementary oriented pair the overlap tells the two forms apart
+                forward = norm(trav) == norm(stored) if (ovl != "*" and norm(stored)[:4] == norm(compl_text(stored))[:4]) \
+                    else norm(trav)[:4] == norm(stored)[:4]
                 want = "+" if forward else "-"
                 if not sym and p.links[0].orient != want:
                     F.append("path-flag-wrong: order %r flag %s expected %s" % (list(order), p.links[0].orient, want))
